@@ -6,7 +6,7 @@
   iterates one, the model applies an arbitrary permuting function (`Orders`, `psh`, `GraphPerm`).
   "For all `Orders` that are `Valid`" therefore reads "for all hash-iteration orders".
 -/
-import RumaModel.Lemmas.StateResTopo
+import RumaModel.Lemmas.StateResStages
 namespace Ruma.Props.C06
 open Ruma Ruma.StateRes Ruma.Spec.StateResV2
 
@@ -29,12 +29,154 @@ distinct node keys (cycles and dangling edges included) and every total key func
 theorem lexTopoSort_perm {g g' : Graph} (hg : g.nodes.Nodup) (hp : GraphPerm g g')
     {psh psh' : Id → List Id → List Id} (hpsh : ∀ n l, (psh n l).Perm l)
     (hpsh' : ∀ n l, (psh' n l).Perm l) {key : Id → Option (Int × Int)} {kf : Id → Int × Int}
-    (hk : ∀ n, key n = some (kf n)) :
+    (hk : ∀ n ∈ g.nodes, key n = some (kf n)) :
     lexTopoSort psh' g' key = lexTopoSort psh g key := by
-  rw [lexTopoSort_eq_lexTopo hg hpsh hk, lexTopoSort_eq_lexTopo (hp.nodes.symm.nodup hg) hpsh' hk,
+  rw [lexTopoSort_eq_lexTopo hg hpsh hk,
+    lexTopoSort_eq_lexTopo (hp.nodes.symm.nodup hg) hpsh' (fun n hn => hk n (hp.nodes.mem_iff.mp hn)),
     lexTopo_perm hg hp]
+
+/-- **separate_perm.** Passing the state sets in another order, storing each of them in another
+order and iterating `occurrences` in any order gives the same unconflicted map (same lookups) and
+the same set of conflicted event ids. -/
+theorem separate_perm {o o' : Orders} (ho : o.Valid) (ho' : o'.Valid) {sets sets' : List StateMap}
+    (wf : SetsWF sets) (σ : StateMap → StateMap) (hσ : ∀ s, (σ s).Perm s)
+    (hp : sets'.Perm (sets.map σ)) :
+    StEq (separate o sets).1 (separate o' sets').1 ∧
+    ∀ id, id ∈ confIds (separate o sets).2 ↔ id ∈ confIds (separate o' sets').2 := by
+  have wf' := wf.of_perm σ hσ hp
+  have hs := SetsEquiv.of_perm σ hσ hp
+  constructor
+  · intro k
+    apply option_ext
+    intro v
+    rw [separate_clean ho wf, separate_clean ho' wf', hs.unconf wf]
+  · intro id
+    rw [separate_conf ho wf, separate_conf ho' wf']
+    constructor
+    · rintro ⟨k, h1, h2⟩
+      exact ⟨k, (hs.has wf k id).mp h1, fun u => h2 ((hs.unconf wf k id).mpr u)⟩
+    · rintro ⟨k, h1, h2⟩
+      exact ⟨k, (hs.has wf k id).mpr h1, fun u => h2 ((hs.unconf wf k id).mp u)⟩
+
+/-- **authChainDiff_perm.** The auth-chain difference is the same set (here: lists that are
+permutations of each other) whatever the order of the chain arguments, of each chain's elements and
+of `id_counts`. -/
+theorem authChainDiff_perm {o o' : Orders} (ho : o.Valid) (ho' : o'.Valid) {chains chains' : List (List Id)}
+    (hn : ∀ c ∈ chains, c.Nodup) (τ : List Id → List Id) (hτ : ∀ c, (τ c).Perm c)
+    (hp : chains'.Perm (chains.map τ)) :
+    (authChainDiff o chains).Perm (authChainDiff o' chains') := by
+  rw [List.perm_ext_iff_of_nodup (nodup_authChainDiff ho _) (nodup_authChainDiff ho' _)]
+  intro id
+  rw [mem_authChainDiff ho hn, mem_authChainDiff ho' (chains_nodup_of_perm τ hτ hp hn),
+    (ChainsEquiv.of_perm τ hτ hp).diff]
+
+/-- **mainlineSort_perm.** The mainline sort of a duplicate-free list of event ids does not depend on
+the order of the list nor on the iteration order of `order_map`. -/
+theorem mainlineSort_perm {o o' : Orders} (ho : o.Valid) (ho' : o'.Valid) (fetch : Id → Option Event)
+    (fuel : Nat) {l l' : List Id} (hn : l.Nodup) (hp : l.Perm l') (pl : Option Id) :
+    mainlineSort o fetch fuel l pl = mainlineSort o' fetch fuel l' pl :=
+  StateRes.mainlineSort_perm ho ho' fetch fuel hn hp pl
+
+/-- **powerSort_perm** (under `WF`: every event of the full conflicted set `A` is known, cites the
+room's create event `c0` and at most one power-levels event — so the create event is not in `A`).
+The reverse topological power sort gives the same list whatever the order of `A`, of the graph's
+node and edge sets, of `reverse_graph`, and therefore whichever node fills the creator cache. -/
+theorem powerSort_perm (p : Params) {o o' : Orders} (ho : o.Valid) (ho' : o'.Valid)
+    {fetch : Id → Option Event} {A A' : List Id} (hA : A.Nodup) (hp : A.Perm A') {c0 : Event}
+    (hwf : ∀ n ∈ A, ∃ e, fetch n = some e ∧ EventWF fetch c0 e) (q : Id → Bool) :
+    powerSort p o fetch A (A.filter q) = powerSort p o' fetch A' (A'.filter q) := by
+  have hA' : A'.Nodup := hp.nodup hA
+  have hAA : ∀ x, x ∈ A ↔ x ∈ A' := fun x => hp.mem_iff
+  have hctl : ∀ c ∈ A.filter q, c ∈ A := fun c hc => (List.mem_filter.mp hc).1
+  have hctl' : ∀ c ∈ A'.filter q, c ∈ A' := fun c hc => (List.mem_filter.mp hc).1
+  have inv0 : GInv fetch A [] := ⟨by simp [Graph.nodes], by intro n es h; cases h⟩
+  have cl0 : Closed fetch A [] [] := by intro n hn; simp [Graph.nodes] at hn
+  obtain ⟨G, hb⟩ := buildGraph_total hA _ [] hctl inv0 cl0
+  obtain ⟨inv, _, hnodes⟩ := buildGraph_ok _ [] G hb inv0 cl0
+  have hGn : ∀ n, n ∈ G.nodes ↔ ∃ r ∈ A.filter q, Path fetch A r n := by
+    intro n; rw [hnodes]; simp [Graph.nodes]
+  have hGe : ∀ n es, (n, es) ∈ G → ∀ x, x ∈ es ↔ x ∈ children fetch A n :=
+    fun n es h x => (inv.edges n es h).2 x
+  have hGn' : ∀ n, n ∈ G.nodes ↔ ∃ r ∈ A'.filter q, Path fetch A' r n := by
+    intro n; rw [hGn]
+    constructor
+    · rintro ⟨r, hr, hpth⟩
+      obtain ⟨h1, h2⟩ := List.mem_filter.mp hr
+      exact ⟨r, List.mem_filter.mpr ⟨(hAA r).mp h1, h2⟩, hpth.congr hAA⟩
+    · rintro ⟨r, hr, hpth⟩
+      obtain ⟨h1, h2⟩ := List.mem_filter.mp hr
+      exact ⟨r, List.mem_filter.mpr ⟨(hAA r).mpr h1, h2⟩, hpth.congr (fun x => (hAA x).symm)⟩
+  have hGe' : ∀ n es, (n, es) ∈ G → ∀ x, x ∈ es ↔ x ∈ children fetch A' n := by
+    intro n es h x; rw [← children_congr _ hAA]; exact hGe n es h x
+  rw [powerSort_eq ho hA hctl hwf G inv.nodup hGn hGe,
+    powerSort_eq ho' hA' hctl' (fun n hn => hwf n ((hAA n).mpr hn)) G inv.nodup hGn' hGe']
+
+/-- The hypothesis `EventWF` of `powerSort_perm` / `RoomWF` of `resolve_perm` is satisfiable: a
+topic event citing the create event, a membership and a power-levels event. -/
+example :
+    let c0 : Event := { eventId := bs "$c", roomId := bs "!r", sender := bs "@a", type := tCreate,
+                        stateKey := some [], content := [] }
+    let m : Event := { eventId := bs "$m", roomId := bs "!r", sender := bs "@a", type := tMember,
+                       stateKey := some (bs "@a"), content := [], authEvents := [bs "$c"] }
+    let pl : Event := { eventId := bs "$p", roomId := bs "!r", sender := bs "@a", type := tPowerLevels,
+                        stateKey := some [], content := [], authEvents := [bs "$c", bs "$m"] }
+    let t : Event := { eventId := bs "$t", roomId := bs "!r", sender := bs "@a", type := bs "m.room.topic",
+                       stateKey := some [], content := [], authEvents := [bs "$p", bs "$c", bs "$m"] }
+    EventWF (fetchOf [c0, m, pl, t]) c0 t := by
+  intro c0 m pl t
+  exact ⟨⟨by decide, by decide⟩, by rfl⟩
+
+/-- **resolve_perm.** For every room that satisfies `WF` (`RoomWF`), all iteration orders `o`, `o'`
+of the hash containers, every permutation of the state-set argument and of each state map, and
+every permutation of the auth-chain argument and of each chain: `resolve` fails in the same way or
+returns state maps with the same lookups. -/
+theorem resolve_perm (p : Params) {o o' : Orders} (ho : o.Valid) (ho' : o'.Valid) (store : List Event)
+    {sets sets' : List StateMap} (wf : SetsWF sets)
+    (σ : StateMap → StateMap) (hσ : ∀ s, (σ s).Perm s) (hps : sets'.Perm (sets.map σ))
+    {chains chains' : List (List Id)} (hcn : ∀ c ∈ chains, c.Nodup)
+    (τ : List Id → List Id) (hτ : ∀ c, (τ c).Perm c) (hpc : chains'.Perm (chains.map τ))
+    {c0 : Event} (hwf : RoomWF store sets chains c0) :
+    ResEq (resolve p o store sets chains) (resolve p o' store sets' chains') :=
+  resolve_congr p ho ho' store wf (wf.of_perm σ hσ hps) (SetsEquiv.of_perm σ hσ hps) hcn
+    (chains_nodup_of_perm τ hτ hpc hcn) (ChainsEquiv.of_perm τ hτ hpc) hwf
+
+/-- **resolve_single.** Resolving one state set returns it: the result has exactly its lookups
+(whatever the auth chains, the store and the iteration orders; no conflict branch is entered). -/
+theorem resolve_single (p : Params) {o : Orders} (ho : o.Valid) (store : List Event) {s : StateMap}
+    (hs : (AL.keys s).Nodup) (chains : List (List Id)) :
+    ∃ m, resolve p o store [s] chains = .ok m ∧ StEq m s := by
+  have wf : SetsWF [s] := by intro s' h; simp at h; subst h; exact hs
+  have hu := unconf_of_identical (sets := [s]) hs (by simp) (by intro s' h; simp at h; subst h; exact .refl _)
+  obtain ⟨m, h1, h2⟩ := resolve_noconflict p ho store wf chains (by
+    rintro k id ⟨s', hs', hg⟩; simp at hs'; subst hs'; exact (hu k id).mpr hg)
+  refine ⟨m, h1, fun k => option_ext (fun v => ?_)⟩
+  rw [h2, hu]
+
+/-- **resolve_identical.** Resolving n ≥ 1 copies of one state set (each possibly stored in a
+different order) returns that set. -/
+theorem resolve_identical (p : Params) {o : Orders} (ho : o.Valid) (store : List Event) {s : StateMap}
+    (hs : (AL.keys s).Nodup) {sets : List StateMap} (hne : sets ≠ []) (hall : ∀ s' ∈ sets, s'.Perm s)
+    (chains : List (List Id)) :
+    ∃ m, resolve p o store sets chains = .ok m ∧ StEq m s := by
+  have wf : SetsWF sets := by
+    intro s' h
+    have : (AL.keys s').Perm (AL.keys s) := (hall s' h).map _
+    exact this.symm.nodup hs
+  have hu := unconf_of_identical hs hne hall
+  obtain ⟨m, h1, h2⟩ := resolve_noconflict p ho store wf chains (by
+    rintro k id ⟨s', hs', hg⟩
+    rw [hu, AL.get_perm hs (hall s' hs').symm]; exact hg)
+  refine ⟨m, h1, fun k => option_ext (fun v => ?_)⟩
+  rw [h2, hu]
 
 end Ruma.Props.C06
 #print axioms Ruma.Props.C06.extractMin_perm
 #print axioms Ruma.Props.C06.tieBreaker_strictTotal
 #print axioms Ruma.Props.C06.lexTopoSort_perm
+#print axioms Ruma.Props.C06.separate_perm
+#print axioms Ruma.Props.C06.authChainDiff_perm
+#print axioms Ruma.Props.C06.mainlineSort_perm
+#print axioms Ruma.Props.C06.powerSort_perm
+#print axioms Ruma.Props.C06.resolve_perm
+#print axioms Ruma.Props.C06.resolve_single
+#print axioms Ruma.Props.C06.resolve_identical
